@@ -7,7 +7,7 @@ from ..procsim import K
 
 ID = 'C18'
 LEVEL = 'fault_enumeration'
-CASE_TIMEOUT = 120.0
+CASE_TIMEOUT = 180.0
 CHUNK = 2
 RULE = ('two kinds of seeded cases. history: 1-4 epochs of 1-3 caller processes (real forks under the baton scheduler, fresh per epoch so only the cache directory survives) '
         'performing memoised calls / partial iterations of resumable recursions through the real nutils.cache code on an instrumented file layer, with faults: process killed in the middle of a write() '
@@ -103,7 +103,7 @@ def gen_case(rng, index, tier):
         for op in ops:
             if op['t'] == 'iter':
                 op['m'] = min(op['m'], 3)
-        return dict(mode='killsweep', ops=ops, budget_s=60 if tier == 'thorough' else 15)
+        return dict(mode='killsweep', ops=ops, budget_s=30 if tier == 'thorough' else 15)
     if rng.random() < 0.4:
         op = gen_op(rng, small=rng.random() < (0.5 if tier == 'thorough' else 0.8))
         if rng.random() < 0.08:
